@@ -14,6 +14,10 @@ CONSTANTS
   Concrete <- NamesClash
   Now = 100
   Skews = {"behind"}
+  FillGaps = "off"
+  FillN = 0
+  Page = 1000
+  ListTruncated = FALSE
   ClampLocal = FALSE
   FixStaleDb = TRUE
   LiveDbGuard = TRUE
